@@ -15,6 +15,8 @@ Line protocol of the C16 correspondence run (same request file as harness/src/bi
       n-th one listed in a table-level `PRIMARY KEY (…)` constraint; `ddltre`: after shutdown + reopen (disk)
   engine `diskre` of the INSERT scenarios: disk, with shutdown + reopen between the CREATE TABLEs and the INSERTs
   decl: `(<TY> <null|notnull|pk>)` or `(<TY> (opts o*))` (column options as written, in order)
+  `(insm <eng> (decls …) (rows …))`  ONE statement INSERT INTO t VALUES (r1), (r2), …: every literal goes through the
+      column's union type (VALUES node), all rows or none
   `(inscols <eng> (decls …) (cols i…) (rows …))`  INSERT INTO t(c_i…) VALUES …, same answer format
   `(inssel <eng> (src (<TY> <n>)*) (decls …) (rows …))`  rows into s, then INSERT INTO t SELECT * FROM s
 
@@ -232,6 +234,19 @@ def answer (line : String) : String :=
       -- tags only of rows the implementation model actually stores
       let tags := (rows.filter fun r => (castRow decls r).isOk).map (rowTags e decls) |>.flatten |>.eraseDups
       "ok " ++ showRows (selectAll e decls rows) ++ " ;; ok " ++ showRows (specTable decls rows)
+        ++ " ;; " ++ " ".intercalate tags
+    | _, _ => "bad-request"
+  -- ONE multi-row statement `INSERT INTO t VALUES (r1), (r2), …`
+  | some (.list [.atom "insm", .atom eng, .list (.atom "decls" :: ds), .list (.atom "rows" :: rs)]) =>
+    match parseDecls ds, parseValRows rs with
+    | some decls, some rows =>
+      let e := if isDisk eng then Engine.disk else Engine.mem
+      let showRows := fun (rs : List (List IVal)) =>
+        " ".intercalate (insertionSortStr (rs.map fun r => "(" ++ " ".intercalate (r.map showIVal) ++ ")"))
+      let stored := insertValues decls rows
+      let tags := if stored.isEmpty then [] else
+        (((rows.map (rowTags e decls)).flatten) ++ detourTags decls rows).eraseDups
+      "ok " ++ showRows (stored.map (readRow e decls)) ++ " ;; ok " ++ showRows (specInsertValues decls rows)
         ++ " ;; " ++ " ".intercalate tags
     | _, _ => "bad-request"
   | some (.list [.atom "inscols", .atom eng, .list (.atom "decls" :: ds), .list (.atom "cols" :: cs),
